@@ -11,6 +11,10 @@
 #include "common.h"
 #include "mpsc_relaxed_fifo.h"
 
+/* VR_BIAS=.data:<k> (same k here): abstract item v travels as payload word v - k, so item k is a
+ * NULL payload in the real code; the runtime prints the data cells plus k again */
+static long payload_bias;
+
 static mpscr_fifo_t* fifo;
 #define MAXN 4096
 static spsc_node_t* freelist[MAXN];
@@ -42,7 +46,7 @@ static void do_pop(void) {
   spsc_node_t* r = mpscr_fifo_trypop(fifo);
   long v = 0;
   if (r) {
-    v = (long)r->data;
+    v = (long)r->data + payload_bias;
     put_node(r);
   }
   vr_note("ret pop %ld", v);
@@ -54,7 +58,7 @@ static void do_op(int t, const char* op) {
     vr_note("producer %zu", PRODNO(t));
     vr_note("call push %ld", v);
     spsc_node_t* n = get_node();
-    n->data = (void*)v;
+    n->data = (void*)(v - payload_bias);
     mpscr_fifo_push(fifo, PRODNO(t), n);
     vr_note("ret push 1");
   } else if (op[0] == 'o' && t == 0) {
@@ -70,6 +74,7 @@ int main(int argc, char** argv) {
   int np = atoi(argv[1]);
   int spare = atoi(argv[2]);
   vh_parse(argv[3]);
+  { const char* b = getenv("VR_BIAS"); const char* c = b ? strrchr(b, ':') : 0; payload_bias = c ? atol(c + 1) : 0; }
   if (argc > 5) { prod_first = atol(argv[4]); prod_stride = atol(argv[5]); }
   if (vh_script.nthreads > 1 && PRODNO(vh_script.nthreads - 1) >= (size_t)np) { fprintf(stderr, "mpscr: more producer threads than producer numbers\n"); return 2; }
   vh_dirty_heap();
@@ -92,7 +97,7 @@ int main(int argc, char** argv) {
   for (;;) {
     vr_note("call pop");
     spsc_node_t* r = mpscr_fifo_trypop(fifo);
-    long v = r ? (long)r->data : 0;
+    long v = r ? (long)r->data + payload_bias : 0;
     vr_note("ret pop %ld", v);
     if (!r) break;
   }
